@@ -47,6 +47,37 @@ def run(F, rep):
     sqc = core + "StreamingQueueCompressor::"
     G = cgmod.CallGraph(F)
 
+    # ------------------------------------------------------------ T9 what makes a queued item a token
+    # The worker enters a synchronisation round when a test on the pulled item holds.  The fields that test reads are found in
+    # the worker (not by name); at every place where an item is built for the queue each of them must be a constant, so that
+    # a contig task can never be taken for a token (and a token never for a contig), whatever the input is.
+    TAG = token_tag_fields(F, worker)
+    rep.stat("token_tag_fields", sorted(TAG[0]) if TAG else None)
+    if rep.floor("C05-T9", 1 if TAG and TAG[0] else 0, 1, "the worker's token test on the pulled item"):
+        nb = 0
+        for f in F.funcs.values():
+            if not f.key.startswith(sqc):
+                continue
+            exq = None
+            for bi, t in f.calls():
+                if t.get("indirect") or not t["callee"].startswith(QUEUE) or not re.search(r"::(push|push_\w+|try_push)$", t["callee"]) or len(t["args"]) < 2:
+                    continue
+                exq = exq or Exprs(f)
+                item = exq.operand(t["args"][1])
+                if isinstance(item, tuple) and item[0] == "var":
+                    from mirutil import _single_source
+                    item = _single_source(f, exq, item[1])
+                if not (isinstance(item, tuple) and item[0] == "agg"):
+                    continue
+                nb += 1
+                fields = dict(item[2])
+                bad = {n: fmt(fields.get(n))[:50] for n in TAG[0] if not (isinstance(fields.get(n), tuple) and fields.get(n)[0] == "const")}
+                rep.ob("C05-T9", "item queued in %s: every field the worker's token test reads (%s) is a constant here" % (f.key.rsplit("::", 1)[-1], ", ".join(sorted(TAG[0]))),
+                       not bad, detail=("run-time value(s): %s - whether this item starts a synchronisation round depends on the data" % bad) if bad else "via %s" % TAG[1],
+                       site=site_of(f, t), key="C05-T9 | %s | tag constant @%s" % (f.key, _tok_ctx(item)))
+        rep.floor("C05-T9", nb, 5, "places where an item is built for the queue (4 token rounds, 1 contig push)")
+    TAGF = sorted(TAG[0])[0] if TAG and len(TAG[0]) == 1 else "is_sync_token"
+
     # ------------------------------------------------------------ T1 round accounting
     n_barrier = 0
     roots_prod = [k for k in F.funcs if k.startswith(sqc) and F.funcs[k].kind == "assocfn" and F.funcs[k].is_pub()]
@@ -96,7 +127,7 @@ def run(F, rep):
                 if isinstance(item, tuple) and item[0] == "var":
                     from mirutil import _single_source
                     item = _single_source(f, ex, item[1])
-                is_tok = isinstance(item, tuple) and item[0] == "agg" and dict(item[2]).get("is_sync_token") == ("const", 1)
+                is_tok = isinstance(item, tuple) and item[0] == "agg" and dict(item[2]).get(TAGF) == ("const", 1)
                 if not is_tok:
                     continue
                 token_loops += 1
@@ -139,7 +170,7 @@ def run(F, rep):
             if isinstance(item, tuple) and item[0] == "var":
                 from mirutil import _single_source
                 item = _single_source(f, ex, item[1])
-            is_tok = isinstance(item, tuple) and item[0] == "agg" and dict(item[2]).get("is_sync_token") == ("const", 1)
+            is_tok = isinstance(item, tuple) and item[0] == "agg" and dict(item[2]).get(TAGF) == ("const", 1)
             if not is_tok:
                 continue
             token_loops += 1
@@ -866,3 +897,43 @@ def t7_rule(F, rep, G, worker):
                     rep.ob("C05-T7", "%s: the polling loop on %s() ends once the workers have taken what was queued" % (k.rsplit("::", 1)[-1], o), ok, detail=why,
                            site=site_of(f, t), key="C05-T7 | %s | %s" % (k, o))
     rep.floor("C05-T7", n, 2, "producer polling loops (drain, sync_and_flush)")
+
+
+def token_tag_fields(F, worker):
+    """(set of field names of the queued item that the worker's token test reads, description) - found from the conditions
+    that dominate the worker's first barrier wait and mention the pulled item; a test made through a method of the item is
+    followed into that method's body."""
+    import pipeline as pl
+    from mirutil import dominating_conds
+    WP = pl.WorkerPhases(F)
+    if not getattr(WP, "ok", False) or not WP.waits:
+        return None
+    ex = Exprs(worker)
+    g = cfg_of(worker)
+    w0 = [w for w in sorted(WP.waits) if all(g.dominates(w, x) or w == x for x in WP.waits)]
+    w0 = w0[0] if w0 else sorted(WP.waits)[0]
+
+    def is_item(e):
+        return isinstance(e, tuple) and e[0] == "field" and e[2] == "0" and isinstance(e[1], tuple) and e[1][0] == "variant" and \
+            isinstance(e[1][1], tuple) and e[1][1][0] == "call" and e[1][1][1].endswith("::pull")
+    names, how = set(), []
+    for c in dominating_conds(worker, w0, ex):
+        e = c[0]
+        for x in walk(e):
+            if isinstance(x, tuple) and x[0] == "field" and is_item(x[1]):
+                names.add(x[2])
+                how.append("field %s" % x[2])
+            if isinstance(x, tuple) and x[0] == "call" and x[1] in F.funcs and any(is_item(a) or any(is_item(y) for y in walk(a)) for a in x[2]):
+                q = F.funcs[x[1]]
+                exq = Exprs(q)
+                selfn = [nm for l, nm in sorted(q.arg_names().items())][:1]
+                for b in q.blocks:
+                    rets = [exq.rvalue(s_["rv"]) for s_ in b["stmts"] if s_["k"] == "assign" and s_["pl"]["l"] == 0 and not s_["pl"]["p"]]
+                    if b["term"]["k"] == "call" and b["term"]["dest"]["l"] == 0 and not b["term"]["dest"]["p"]:
+                        rets.append(exq.call(b["term"]))
+                    for r in rets:
+                        for y in walk(r):
+                            if isinstance(y, tuple) and y[0] == "field" and isinstance(y[2], str) and any(isinstance(z, tuple) and z[0] == "param" and z[1] in selfn for z in walk(y[1])):
+                                names.add(y[2])
+                                how.append("%s reads %s" % (q.key.rsplit("::", 1)[-1], y[2]))
+    return names, "; ".join(sorted(set(how)))
